@@ -45,10 +45,15 @@ func unsafeString(bytes []byte) string {
 	return *(*string)(unsafe.Pointer(&bytes))
 }
 
+type visited struct {
+	t reflect.Type
+	p uintptr
+}
+
 // acyclic reports whether v can be handed to a printer that follows pointers without end:
 // arguments and results arrive from the wire, where a list may contain itself
 // (Cs4"echo"a1{r0;}z), and neither jsoniter nor fmt survive that.
-func acyclic(v reflect.Value, path map[uintptr]bool, depth int) bool {
+func acyclic(v reflect.Value, path map[visited]bool, depth int) bool {
 	if depth > 64 {
 		return false
 	}
@@ -57,7 +62,8 @@ func acyclic(v reflect.Value, path map[uintptr]bool, depth int) bool {
 		if v.IsNil() {
 			return true
 		}
-		p := v.Pointer()
+		// the type belongs to the identity: a struct and its first field have one address
+		p := visited{v.Type(), v.Pointer()}
 		if path[p] {
 			return false
 		}
@@ -81,6 +87,9 @@ func acyclic(v reflect.Value, path map[uintptr]bool, depth int) bool {
 		}
 	case reflect.Struct:
 		for i := 0; i < v.NumField(); i++ {
+			if v.Type().Field(i).PkgPath != "" {
+				continue // not exported: the printer does not look at it either
+			}
 			if !acyclic(v.Field(i), path, depth+1) {
 				return false
 			}
@@ -90,7 +99,7 @@ func acyclic(v reflect.Value, path map[uintptr]bool, depth int) bool {
 }
 
 func (log *Log) print(label string, v interface{}) {
-	if !acyclic(reflect.ValueOf(v), map[uintptr]bool{}, 0) {
+	if !acyclic(reflect.ValueOf(v), map[visited]bool{}, 0) {
 		log.Println(label, "(a value that contains itself or is nested too deep to print)")
 		return
 	}
